@@ -258,6 +258,8 @@ pub struct Replica {
     pub heads_log: Vec<(Vec<String>, Value)>,
     pub prev_items: Items,
     pub array_conflict_seen: bool,
+    /// objects resolved since the last commit, with the conflict set right after the resolution
+    pub resolved_pending: Vec<String>,
 }
 
 #[derive(Clone)]
@@ -334,6 +336,7 @@ impl World {
                 heads_log: vec![],
                 prev_items: Items::new(),
                 array_conflict_seen: false,
+                resolved_pending: vec![],
             });
         }
         let n = reps.len();
@@ -361,6 +364,9 @@ impl World {
 
     /// one line of the primitive-level trace: what was called, what storage gained, what the replica shows
     fn emit(&mut self, prim: &str, r: usize, res: &str, extra: Value) {
+        if (prim == "commit" && res == "ok") || prim == "unstage" || prim == "reload" || prim == "new" {
+            self.reps[r].resolved_pending.clear();
+        }
         if prim == "commit" {
             // a pack written by a commit (successful or not) can complete blocks this replica holds back: until
             // its next refresh the storage may hold more than the replica has applied
@@ -835,6 +841,7 @@ impl World {
     fn op_commit(&mut self, r: usize, info: Value) {
         let is_sim = self.reps[r].be.is_sim();
         let dirty_before = self.reps[r].dirty;
+        let resolved_pending = self.reps[r].resolved_pending.clone();
         let m = self.reps[r].m.as_ref().unwrap();
         let had_staging = m.has_staging();
         let read_before = read_res(m);
@@ -932,6 +939,18 @@ impl World {
                     // produced the same object.  A reopened replica applies them at once, the committing one at
                     // its next refresh (C02; `C03b.commit_needs_noneUnblocked` is the model's counterexample).
                     // Durability of THIS commit is then judged on the storage without those held-back blocks.
+                    // C07: a committed resolution is durable - the objects resolved since the last commit are not in
+                    // conflict for a replica reopened on the storage either (unless the storage held more than the
+                    // committing replica had looked at)
+                    if !dirty_before {
+                        let fc: BTreeSet<String> = f_after.get("in_conflict").and_then(|x| x.as_array()).map(|a| a.iter().filter_map(|x| x.as_str().map(|s| s.to_string())).collect()).unwrap_or_default();
+                        let live_c = m.in_conflict();
+                        for u in &resolved_pending {
+                            if fc.contains(u) && !live_c.contains(u) {
+                                fails.push(("C07", format!("the committed resolution of {} does not propagate: a replica opened on the storage still sees the conflict", u)));
+                            }
+                        }
+                    }
                     let held: Vec<String> = m.verif_delta_status().iter().filter(|(_, s)| **s != "applied").map(|(k, _)| format!("{}.delta", k)).collect();
                     if !dirty_before {
                         if held.is_empty() {
@@ -1232,12 +1251,14 @@ impl World {
         }
         let m = self.reps[r].m.as_ref().unwrap();
         let res = m.resolve_as(&uuid, &choice);
+        let mut resolved_ok = false;
         self.emit("resolve", r, if res.is_ok() { "ok" } else { "err" }, json!({"uuid": uuid, "rev": choice}));
         let m = self.reps[r].m.as_ref().unwrap();
         let mut fails: Vec<(&str, String)> = vec![];
         match res {
             Err(e) => fails.push(("C07", format!("resolve_as a live leaf failed: {}", msg_prefix(&e.to_string())))),
             Ok(_) => {
+                resolved_ok = true;
                 if m.in_conflict().contains(&uuid) {
                     fails.push(("C07", "object still in conflict after resolution".into()));
                 }
@@ -1295,6 +1316,9 @@ impl World {
             Err(_) => fails.push(("C08", "resolve_as aborted".into())),
         }
         // (emitted right after the call, see above)
+        if resolved_ok {
+            self.reps[r].resolved_pending.push(uuid.clone());
+        }
         for (p, w) in fails {
             self.fail(p, w);
         }
